@@ -242,7 +242,10 @@ class _Used(ast.NodeVisitor):
     """maximal dotted primaries rooted at a name that CPython resolves in the module's global scope and
     that is not bound by a non-import statement of the module"""
 
-    def __init__(self, src):
+    def __init__(self, src, rope_view=False):
+        # rope_view: as module_imports._UnboundNameFinder does, visit decorators, default values, annotations
+        # and base classes with the finder of the *inner* scope (a default value `x=x` then counts as bound)
+        self.rope_view = rope_view
         self.top = symtable.symtable(src, "<m>", "exec")
         self.stack = [self.top]
         self.used = []
@@ -273,6 +276,9 @@ class _Used(ast.NodeVisitor):
         return s.is_global()
 
     def _scoped(self, node, name, outer_parts, inner_parts):
+        if self.rope_view:
+            inner_parts = list(outer_parts) + list(inner_parts)
+            outer_parts = []
         for n in outer_parts:
             self.visit(n)
         self.stack.append(self._child(node, name))
@@ -318,10 +324,24 @@ class _Used(ast.NodeVisitor):
             self.visit(n)
 
 
-def used_and_exported(src):
-    """(used primaries in order of appearance without duplicates, strings of __all__)"""
+def hidden_uses(src):
+    """primaries with at least one occurrence that CPython's scoping uses as a global and rope's finder
+    does not see (per occurrence: another occurrence of the same primary may well be seen)"""
+    import collections
     tree = ast.parse(src)
-    v = _Used(src)
+    a, b = _Used(src, False), _Used(src, True)
+    a.visit(tree)
+    b.visit(tree)
+    diff = collections.Counter(a.used) - collections.Counter(b.used)
+    return sorted(diff)
+
+
+def used_and_exported(src, rope_view=False):
+    """(used primaries in order of appearance without duplicates, strings of __all__, non-import globals).
+    rope_view=False: CPython's scoping (the truth the oracle uses); rope_view=True: the scoping of rope's
+    unbound-name finder (the input of the import model; validated against coq/C07/Unbound.v on every case)"""
+    tree = ast.parse(src)
+    v = _Used(src, rope_view)
     v.visit(tree)
     seen, used = set(), []
     for u in v.used:
@@ -504,11 +524,25 @@ def gen_module(rng, place, cfg=None):
             continue                                        # unused
         if k < 0.55:
             uses.append("print(%s)" % expr(name))
-        elif k < 0.65:
+        elif k < 0.59:
             f = fresh("g")
             funcs.append("def %s():\n    return %s" % (f, expr(name)))
             fnames.append(f)
             uses.append("print(%s())" % f)
+        elif k < 0.61:
+            f = fresh("g")                                  # nested function: the use is two scopes down
+            funcs.append("def %s():\n    def inner():\n        return %s\n    return inner()" % (f, expr(name)))
+            uses.append("print(%s())" % f)
+        elif k < 0.63:
+            f = fresh("g")                                  # default value: evaluated in the enclosing scope
+            classes.append("def %s(a=%s):\n    return a" % (f, expr(name)))    # defined after the imports
+            uses.append("print(%s())" % f)
+        elif k < 0.642:
+            f = fresh("g")                                  # default value naming a parameter of the same name
+            classes.append("def %s(%s=%s):\n    return %s" % (f, name, name, name))
+            uses.append("print(%s())" % f)
+        elif k < 0.65:
+            uses.append("print(str(%s).strip().upper())" % expr(name))   # attribute chain over a call
         elif k < 0.71:
             f = fresh("g")                                  # shadowed by a parameter: not a use
             funcs.append("def %s(%s):\n    return %s" % (f, name, name))
